@@ -157,6 +157,17 @@ func RunOne(t *testing.T, prop string, seed uint64, sc Scenario, o RunOpts, res 
 		}
 		left := k.Drain()
 		viol = append(viol, sc.PostDrain(k, left)...)
+		if f, ok := sc.(interface {
+			Forgive(k *sim.Kernel, v sim.Violation) bool
+		}); ok {
+			kept := viol[:0]
+			for _, v := range viol {
+				if !f.Forgive(k, v) {
+					kept = append(kept, v)
+				}
+			}
+			viol = kept
+		}
 		res.Violations = viol
 		res.Left = left
 		res.Stuck = k.Stuck
